@@ -345,11 +345,25 @@ def _board_is_played_iff_not_passed_out(iter, message, passed_out):
                 calls_since(iter, PlayerThread._playing_phase) == ite(passed_out, 0, 1))
 
 
-@contract('bridge_env.network_bridge.server.PlayerThread.run', props=['C10'])
+@contract('bridge_env.network_bridge.server.PlayerThread.run', props=['C10', 'C20'])
 class _seat_run:
     raises = {Exception: 'onlyif', ValueError: 'onlyif'}
     exc_havoc = True
     modifies = ['self']
+
+    # C20: admission is decided by _connect alone (its contract: a request that is turned away
+    # leaves the seat table untouched).  Whatever the thread does after that call returned, it
+    # does not write the shared seat table itself: the players already seated are not disturbed.
+    # (Stated for a connection that was not admitted: the thread then ends at once.  For an
+    # admitted one the barriers are points where, in this sequential model, other threads may
+    # have written the table -- the assumed contract of _sync_event.)
+    def ensures_seat_table_written_by_the_admission_only(self):
+        from pyvc.speclib import call_result, call_self_after
+        admitted = call_result(None, PlayerThread._connect, 0)
+        after_admission = call_self_after(None, PlayerThread._connect, 0)
+        return implies(not admitted, forall(Player, lambda p: same(
+            self.team_names[p], after_admission.team_names[p])))
+
     loops = {0: LoopContract(invariant=_seat_run_inv, havoc=dict(passed_out=Bool()),
                              havoc_heap=SEAT_RESET,
                              body_ensures=dict(
